@@ -131,6 +131,39 @@ pub fn run(cx: &mut Ctx) {
             if let Ok(p) = guard(|| a * t) { cb(&|| format!("(({}) * [{}]) + 1", na, nt), honest(&(p + Scalar4::new([1, 0, 0, 0], 0)), &m_add(&m_mul(ma, mt), &[q(1), Q::zero(), Q::zero(), Q::zero()]))); }
         } }
     });
+    cx.check("float_conversions", |cb| {
+        // every f64 is a dyadic rational: each float constructor must store it EXACTLY (and flag it approximate),
+        // and conversion back must return it
+        let fs: Vec<f64> = vec![0.0, 1.0, -1.0, 0.5, 0.1, -0.3, 3.0, 1e-30, -2.5e-300, 1e19, 1e30, -1e30, 9223372036854775808.0, -9223372036854775808.0, 18446744073709551616.0,
+                                4503599627370497.0, 9007199254740993.0 * 4.0, f64::MIN_POSITIVE, 5e-324, 1.7976931348623157e300, std::f64::consts::PI, -std::f64::consts::SQRT_2];
+        for &f in &fs {
+            let want = Q::from_float(f).unwrap();
+            let zero = Q::zero();
+            let variants: Vec<(&str, Result<Scalar4, String>, M4)> = vec![
+                ("Scalar4::from(f64)", guard(|| Scalar4::from(f)), [want.clone(), zero.clone(), zero.clone(), zero.clone()]),
+                ("Scalar4::real", guard(|| Scalar4::real(f)), [want.clone(), zero.clone(), zero.clone(), zero.clone()]),
+                ("Scalar4::complex(1.5, f)", guard(|| Scalar4::complex(1.5, f)), [Q::from_float(1.5).unwrap(), zero.clone(), want.clone(), zero.clone()]),
+                ("Scalar4::from([f, 0.25, f, -2.0])", guard(|| Scalar4::from([f, 0.25, f, -2.0])), [want.clone(), Q::from_float(0.25).unwrap(), want.clone(), Q::from_float(-2.0).unwrap()]),
+                ("Scalar4::from(Complex(f, -f))", guard(|| Scalar4::from(num::complex::Complex::new(f, -f))), [want.clone(), zero.clone(), -want.clone(), zero.clone()]),
+            ];
+            for (name, s, m) in variants {
+                let v = s.and_then(|s| {
+                    let c = read(&s)?;
+                    for k in 0..4 { if f8_region(&m[k]) { continue; } if c[k].0 != m[k] { return Err(format!("coefficient {} stores {} instead of the float's exact value {}", k, c[k].0, m[k])); } }
+                    if f != 0.0 && !c[0].1 && name != "Scalar4::complex(1.5, f)" { return Err("a value that came from a float is not flagged approximate".into()); }
+                    Ok(())
+                });
+                cb(&|| format!("{} with f = {:e}", name, f), v);
+            }
+            if f.abs() < 1e300 && (f == 0.0 || f.abs() > 1e-300) {
+                let s = Scalar4::real(f);
+                let back = guard(|| s.complex_value());
+                cb(&|| format!("complex_value(real({:e}))", f), match back { Ok(z) if (z.re - f).abs() <= 1e-12 * f.abs() && z.im == 0.0 => Ok(()), Ok(z) => Err(format!("got {}", z)), Err(e) => Err(e) });
+            }
+        }
+        // Dyadic <-> f64
+        for &f in &fs { let d = Dyadic::from(f); if let Ok(b) = f64::try_from(d) { cb(&|| format!("f64::try_from(Dyadic::from({:e}))", f), if b == f { Ok(()) } else { Err(format!("got {:e}", b)) }); } }
+    });
     cx.check("zero_one_and_phase_recognition", |cb| {
         for (name, s, m) in pool.iter().chain(l1.iter()) {
             let c = match read(s) { Ok(c) => c, Err(e) => { cb(&|| name.clone(), Err(e)); continue; } };
